@@ -233,3 +233,15 @@ _add("C17", "text", "Blocks also hold explicit companion lines handled by vendor
 _add("C19", "text", "Generators may decline the device (supports_device() overridden while path() names a file: FileDeploy.Active) and may set their priority per instance before Entire.__init__.")
 _add("C20", "text", "Further jobs: trees holding rows that `!` rules describe (top level and inside a block), and two boxes of one model with different software versions.")
 _add("C10", "text", "multiblock_if(...) runs with explicit true / false conditions and with its default condition (with and without a None among the blocks): GenRun op menterif.")
+_add("C02", "text", "Every third generator-path case runs in --acl-safe mode: each generator also has a narrower safe ACL, the run is restricted to it, and the patch is judged against the combined safe ACL.")
+_add("C03", "text", "The shown diff of every third case is computed by the production worker annet.diff.worker (old against the ordered desired configuration).")
+_add("C09", "text", "CliDeployerJob.parse_result (the production caller, --dont-commit on and off) is driven on the sample corpus and its command list judged like every other stream; the flattening vendors (juniper, ribbon, nokia, routeros) are judged on the wrapper clauses.")
+_add("C10", "text", "Generators may decline the device (supports_device / NotSupportedDevice: they then take no part); every fifth run is annotated (annet gen --annotate).")
+_add("C12", "text", "Real-process runs also go through Parallel.run (success / failure dicts, strict exit code).")
+_add("C13", "text", "The patch PCDeployerJob.parse_result uploads for a JSON fragment file is judged like make_patch's.")
+_add("C15", "text", "Merge laws on whole model instances (GlobalOptionsDTO with nested Merge, DictMerge, Concat, Unite fields; Mesh.MergeInst): outcome, inputs unchanged, associativity.")
+_add("C16", "text", "file_diff_worker's printed diff is compared with the device-mode diff of what the two files hold.")
+_add("C06", "text", "The library entry points annet.annlib.filter_acl.make_acl / filter_config (text in, text out) are judged by the same clauses.")
+_add("C18", "text", "The model is also given as a string and without a default; a menu of real model names must resolve to its family; a model no expression matches resolves to the generic vendor.")
+_add("C19", "text", "Declining also happens from inside run() (NotSupportedDevice).")
+_add("C11", "text", "Huawei VLANs declared by a bare `vlan N` next to the batch line; Cisco trunk lists written as `none`.")
